@@ -121,7 +121,7 @@ def compare(ctx, items, stats, tag):
                 continue
             if r["verdict"] == "reject" and spec["ok"]:
                 stats["boundary_while_true"] += 1
-        if it.get("expect") is not None and [r["verdict"], r["cls"], r["place"]] != it["expect"]:
+        if it.get("expect") is not None and _norm([r["verdict"], r["cls"], r["place"]]) != _norm(it["expect"]):
             ctx.report(it["key"], "counterexample", "corpus", dict(detail, expected=it["expect"], observed=[r["verdict"], r["cls"], r["place"]]))
             continue
         if why:
@@ -205,6 +205,11 @@ def run(ctx) -> int:
     return ctx.finish(LEVEL, cov, [
         "the checked CFG handed to check_cfg_linearity is produced by the real front end; its typing invariants (rows match, places defined) are relied on, not proved here",
         "AlreadyUsedError and BorrowSubPlaceUsedError are compared as one class; when several places violate, the implementation's choice must be among the model's candidates"])
+
+
+def _norm(v):
+    """compiler temporaries are numbered by a counter shared by the whole module"""
+    return [v[0], v[1], "%tmp" if isinstance(v[2], str) and v[2].startswith("%tmp") else v[2]]
 
 
 def _leaves(t):
